@@ -1,38 +1,7 @@
-(* proofs for C07: (a) the inplace pattern at the content level, for all tables;
-   (b) the effect signatures, by evaluation over their whole finite domain *)
+(* proofs for C07 (b): the effect signatures, by evaluation over their whole finite domain *)
 From Coq Require Import List Arith ZArith Bool.
-From BiomV Require Import Base.Tree Base.ListUtil Base.Matrix Model.Table Model.Filter Model.Reorder
-  Model.Inplace Model.Effects Proofs.ReorderProofs.
+From BiomV Require Import Model.Table Model.Effects.
 Import ListNotations.
-
-(* ---------------- (a) content level ---------------- *)
-Theorem call_equiv core t : result_content (call true core t) = result_content (call false core t).
-Proof. unfold call. rewrite copy_id. destruct (core t); reflexivity. Qed.
-
-Theorem call_inplace_self core t t' :
-  core t = ROk t' -> call true core t = mkO t' RSelf.
-Proof. intros H. unfold call. rewrite H. reflexivity. Qed.
-
-Theorem call_inplace_refused core t c :
-  core t = RErr c -> call true core t = mkO t (RRaise c).
-Proof. intros H. unfold call. rewrite H. reflexivity. Qed.
-
-Theorem call_new_keeps core t :
-  recv_after (call false core t) = t /\ returned (call false core t) <> RSelf.
-Proof. unfold call. destruct (core (copy t)); simpl; split; (reflexivity || discriminate). Qed.
-
-Theorem update_ids_call_equiv m a strict t :
-  result_content (update_ids_call m a strict true t) = result_content (update_ids_call m a strict false t).
-Proof.
-  unfold update_ids_call. rewrite (update_ids_inplace_same m a strict t).
-  destruct (update_ids m a strict false t); reflexivity.
-Qed.
-
-Theorem update_ids_call_shape m a strict inplace t :
-  (forall t', update_ids m a strict inplace t = ROk t' ->
-     update_ids_call m a strict inplace t = if inplace then mkO t' RSelf else mkO t (RNew t')) /\
-  (forall c, update_ids m a strict inplace t = RErr c -> update_ids_call m a strict inplace t = mkO t (RRaise c)).
-Proof. unfold update_ids_call. split; intros x H; rewrite H; reflexivity. Qed.
 
 (* ---------------- (b) lifting a check over the finite domain ---------------- *)
 Lemma all_bool_complete b : In b all_bool. Proof. destruct b; simpl; tauto. Qed.
@@ -65,7 +34,7 @@ Qed.
 
 (* the evaluations (the bound is the whole domain: 20 operations x 2 layouts x 3888 flag vectors) *)
 Lemma pure_checked : for_all_calls chk_pure = true. Proof. vm_compute. reflexivity. Qed.
-Lemma separate_checked : for_all_calls chk_separate = true. Proof. vm_compute. reflexivity. Qed.
+Lemma separate_checked : for_all_calls (chk_separate_on [M; DictO; DictS]) = true. Proof. vm_compute. reflexivity. Qed.
 Lemma ids_unwritten_checked : for_all_calls chk_ids_unwritten = true. Proof. vm_compute. reflexivity. Qed.
 Lemma arg_untouched_checked : for_all_calls chk_arg_untouched = true. Proof. vm_compute. reflexivity. Qed.
 Lemma resolved_checked : for_all_calls chk_resolved = true. Proof. vm_compute. reflexivity. Qed.
@@ -86,7 +55,8 @@ Theorem result_separate_all o lk fl :
   in_place o fl = false ->
   forall c, In c mutable_comps -> forall r, In r (roots FUEL (eff o lk fl) (Res, c)) -> is_input (fst r) = false.
 Proof.
-  intros Hn c Hc r Hr. pose proof (for_all_calls_spec _ separate_checked o lk fl) as H. unfold chk_separate in H.
+  intros Hn c Hc r Hr. rewrite mutable_comps_value in Hc.
+  pose proof (for_all_calls_spec _ separate_checked o lk fl) as H. unfold chk_separate_on in H.
   rewrite Hn in H. simpl in H. rewrite forallb_forall in H. specialize (H c Hc).
   rewrite forallb_forall in H. apply negb_true_iff. exact (H r Hr).
 Qed.
